@@ -579,3 +579,185 @@ Proof.
     rewrite E5 in E4. rewrite E4 in E3. rewrite E3 in E2. rewrite E2 in E1. rewrite E0, E1.
     cbn [app]. repeat (rewrite <- app_assoc; cbn [app]). reflexivity.
 Qed.
+
+(* ================= an entry ================= *)
+Lemma arel_toks_len r : 1 <= length (arel_toks r).
+Proof. unfold arel_toks, arel_core_toks. cbn [app length]. lia. Qed.
+
+Lemma entry_loop_S f s : entry_loop (S f) s =
+  match peek_past_ws (parse_relation s) with
+  | Some COMMA => parse_relation s
+  | Some PIPE => entry_loop f (skip_ws (bump (skip_ws (parse_relation s))))
+  | None => skip_ws (parse_relation s)
+  | _ => entry_loop f (error (skip_ws (parse_relation s)))
+  end.
+Proof. cbn [entry_loop]. destruct (peek_past_ws (parse_relation s)) as [k|]; [destruct k|]; reflexivity. Qed.
+
+Lemma inv_entry_loop fuel : forall s, length (toks s) < fuel -> vts (toks s) ->
+  nerr (entry_loop fuel s) = nerr s ->
+  exists r alts rest, arel_ok r = true /\ forallb aalt_ok alts = true /\ root_sep rest /\
+    toks s = arels_toks r alts ++ rest /\ toks (skip_ws (entry_loop fuel s)) = rest.
+Proof.
+  induction fuel as [|f IH]; intros s Hf Hv Hc; [lia|]. rewrite entry_loop_S in *.
+  set (s' := parse_relation s) in *.
+  pose proof (E_le_step _ _ (pres_parse_relation s)) as M1. fold s' in M1.
+  assert (Herr : nerr (entry_loop f (error (skip_ws s'))) = nerr s -> False).
+  { intros H. pose proof (E_le_step _ _ (pres_entry_loop f (error (skip_ws s')))) as M. rewrite E_error, E_skip_ws in M. lia. }
+  assert (K1 : nerr s' = nerr s).
+  { destruct (peek_past_ws s') as [k|]; [|rewrite E_skip_ws in Hc; lia].
+    destruct k; try (exfalso; apply Herr; exact Hc); [|lia].
+    pose proof (E_le_step _ _ (pres_entry_loop f (skip_ws (bump (skip_ws s'))))) as M. rewrite !E_skip_ws, E_bump, E_skip_ws in M. lia. }
+  destruct (inv_parse_relation s Hv K1) as (r & rest1 & Hr & Hn1 & Es & Er1). fold s' in Er1.
+  rewrite peek_T, Er1 in Hc. rewrite peek_T, Er1.
+  assert (Hv1 : vts rest1) by (rewrite Es in Hv; apply (vts_app _ _ Hv)).
+  destruct rest1 as [|[k x] r2] eqn:Erest; cbn [hd_kind] in *.
+  - (* end of input *) exists r, [], []. repeat split; try assumption; try exact I.
+    + cbn [arels_toks]. rewrite Es, !app_nil_r. reflexivity.
+    + rewrite T_skip_idem. exact Er1.
+  - destruct (vts_cons _ _ Hv1) as [Hvt Hvr].
+    destruct k; try (exfalso; apply Herr; exact Hc).
+    + (* PIPE *) pose proof (valid_punct PIPE x 124 Hvt eq_refl) as Ex. subst x.
+      set (s1 := skip_ws s') in *.
+      set (s2 := bump s1) in *. assert (T2 : toks s2 = r2) by (apply (T_bump s1 PIPE [124%N] r2 Er1)).
+      destruct (skip_split s2) as (w & Hw & Es2 & _). set (s3 := skip_ws s2) in *. rewrite T2 in Es2.
+      assert (N3 : nerr s3 = nerr s) by (unfold s3, s2, s1; rewrite E_skip_ws, E_bump, E_skip_ws; exact K1).
+      assert (L3 : length (toks s3) < f).
+      { assert (H : length (toks s) = length (arel_toks r) + S (length r2)) by (rewrite Es, app_length; reflexivity).
+        rewrite Es2, app_length in H. pose proof (arel_toks_len r). lia. }
+      assert (Hv3 : vts (toks s3)) by (rewrite Es2 in Hvr; apply (vts_app _ _ Hvr)).
+      destruct (IH s3 L3 Hv3) as (r' & alts' & rest & Hr' & Ha' & Hs & E3 & Eend); [lia|].
+      exists r, ((w, r') :: alts'), rest. split; [exact Hr|]. split.
+      * cbn [forallb]. unfold aalt_ok at 1. cbn [fst snd]. rewrite Hw, Hr'. exact Ha'.
+      * split; [exact Hs|]. split; [|exact Eend]. cbn [arels_toks]. rewrite Es, Es2, E3. repeat (rewrite <- app_assoc; cbn [app]). reflexivity.
+    + (* COMMA *) exists r, [], ((COMMA, x) :: r2). repeat split; try assumption; try exact I.
+      cbn [arels_toks]. rewrite Es, app_nil_r. reflexivity.
+Qed.
+
+Lemma inv_parse_entry s : hd_kind (toks s) = Some IDENT -> vts (toks s) -> nerr (parse_entry s) = nerr s ->
+  exists r alts rest, arel_ok r = true /\ forallb aalt_ok alts = true /\ root_sep rest /\
+    toks s = arels_toks r alts ++ rest /\ toks (skip_ws (parse_entry s)) = rest.
+Proof.
+  intros Hh Hv Hc. unfold parse_entry in *. cbv zeta in *. rewrite E_in_node in Hc.
+  assert (Hn : nowsk (toks s)) by (unfold nowsk; rewrite Hh; reflexivity).
+  assert (Ts : toks (skip_ws s) = toks s) by (rewrite T_skip_ws, (skip_ws_l_nowsk _ Hn); reflexivity).
+  set (s1 := reset (skip_ws s)) in *. assert (T1 : toks s1 = toks s) by exact Ts.
+  assert (N1 : nerr s1 = nerr s) by (unfold s1; cbn [reset nerr]; apply E_skip_ws).
+  destruct (inv_entry_loop (S (S (length (toks s1)))) s1) as (r & alts & rest & Hr & Ha & Hs & E1 & Eend);
+    [lia|rewrite T1; exact Hv|lia|].
+  exists r, alts, rest. split; [exact Hr|]. split; [exact Ha|]. split; [exact Hs|]. split; [rewrite <- T1; exact E1|].
+  rewrite T_skip_ws, toks_in_node. rewrite <- T_skip_ws. exact Eend.
+Qed.
+
+(* ================= the field ================= *)
+Lemma inv_root_loop a fuel : forall s, length (toks s) < fuel -> vts (toks s) -> nowsk (toks s) ->
+  nerr (root_loop a fuel s) = nerr s ->
+  exists i more, aitem_ok a i = true /\ forallb (amore_ok a) more = true /\ toks s = aitems_toks i more.
+Proof.
+  induction fuel as [|f IH]; intros s Hf Hv Hn Hc; [lia|]. cbn [root_loop] in *. rewrite current_T in *.
+  destruct (toks s) as [|[c x] r] eqn:Et; cbn [hd_kind] in *.
+  - exists AEmpty, []. repeat split.
+  - cbv zeta in *.
+    set (s1 := match c with
+               | IDENT => parse_entry s
+               | COMMA => s
+               | DOLLAR => if a then parse_substvar s else error s
+               | _ => error s
+               end) in *.
+    set (s2 := skip_ws s1) in *.
+    (* the tail: what follows the item *)
+    assert (Tail : forall it, aitem_ok a it = true -> nerr s2 = nerr s ->
+              toks s = aitem_toks it ++ toks s2 -> exists i more, aitem_ok a i = true /\ forallb (amore_ok a) more = true /\
+                 (c, x) :: r = aitems_toks i more).
+    { intros it Hit N2 E2. rewrite <- Et.
+      assert (Hn2 : nowsk (toks s2)) by (destruct (skip_split s1) as (_ & _ & _ & H); exact H).
+      assert (Hv2 : vts (toks s2)) by (rewrite Et in E2; rewrite E2 in Hv; apply (vts_app _ _ Hv)).
+      rewrite current_T in Hc.
+      destruct (toks s2) as [|[k2 x2] r2] eqn:E2t; cbn [hd_kind] in Hc.
+      - exists it, []. split; [exact Hit|]. split; [reflexivity|]. cbn [aitems_toks]. rewrite E2. reflexivity.
+      - destruct (vts_cons _ _ Hv2) as [Hvt2 Hvr2].
+        assert (Herr : nerr (root_loop a f (skip_ws (error s2))) = nerr s -> False).
+        { intros H. pose proof (E_le_step _ _ (pres_root_loop a f (skip_ws (error s2)))) as M. rewrite E_skip_ws, E_error in M. lia. }
+        destruct k2; try (exfalso; apply Herr; exact Hc).
+        pose proof (valid_punct COMMA x2 44 Hvt2 eq_refl) as Ex. subst x2.
+        set (s3 := bump s2) in *. assert (T3 : toks s3 = r2) by (apply (T_bump s2 COMMA [44%N] r2 E2t)).
+        destruct (skip_split s3) as (w & Hw & Es3 & Hn4). set (s4 := skip_ws s3) in *. rewrite T3 in Es3.
+        assert (L4 : length (toks s4) < f).
+        { assert (H : length (toks s) = length (aitem_toks it) + S (length r2)) by (rewrite E2, app_length; reflexivity).
+          rewrite Es3, app_length in H. rewrite Et in H. cbn [length] in H, Hf. lia. }
+        assert (Hv4 : vts (toks s4)) by (rewrite Es3 in Hvr2; apply (vts_app _ _ Hvr2)).
+        destruct (IH s4 L4 Hv4 Hn4) as (i' & more' & Hi' & Hm' & E4).
+        { rewrite Hc. unfold s4, s3. rewrite E_skip_ws, E_bump. symmetry. exact N2. }
+        exists it, ((w, i') :: more'). split; [exact Hit|]. split.
+        + cbn [forallb]. unfold amore_ok at 1. cbn [fst snd]. rewrite Hw, Hi'. exact Hm'.
+        + cbn [aitems_toks]. rewrite E2, Es3, E4. reflexivity. }
+    assert (M2 : nerr s1 <= nerr (match current s2 with
+                                 | Some COMMA => root_loop a f (skip_ws (bump s2))
+                                 | None => s2
+                                 | _ => root_loop a f (skip_ws (error s2)) end)).
+    { assert (nerr s2 = nerr s1) by apply E_skip_ws.
+      destruct (current s2) as [k|]; [|lia].
+      destruct k; match goal with |- _ <= nerr (root_loop a f ?y) => pose proof (E_le_step _ _ (pres_root_loop a f y)) as M end;
+        rewrite !E_skip_ws, ?E_bump, ?E_error in M; lia. }
+    assert (Herr1 : s1 = error s -> False).
+    { intros H. rewrite H, E_error in M2. lia. }
+    destruct c; try (exfalso; apply Herr1; reflexivity).
+    + (* IDENT: an entry *)
+      pose proof (E_le_step _ _ (pres_parse_entry s)) as M1. fold s1 in M1.
+      assert (K1 : nerr (parse_entry s) = nerr s) by (fold s1; lia).
+      destruct (inv_parse_entry s) as (r0 & alts & rest & Hr & Ha & Hs & E1 & Eend); [rewrite Et; reflexivity|rewrite Et; exact Hv|exact K1|].
+      fold s1 in Eend. fold s2 in Eend.
+      apply (Tail (AEntry r0 alts)); [cbn [aitem_ok]; rewrite Hr, Ha; reflexivity|unfold s2; rewrite E_skip_ws; lia|].
+      rewrite Eend. exact E1.
+    + (* COMMA: an empty item *)
+      apply (Tail AEmpty); [reflexivity|unfold s2, s1; apply E_skip_ws|].
+      cbn [aitem_toks app]. unfold s2, s1. rewrite T_skip_ws, Et, (skip_ws_l_nowsk _ Hn). reflexivity.
+    + (* DOLLAR *)
+      destruct a; [|exfalso; apply Herr1; reflexivity].
+      pose proof (E_le_step _ _ (pres_parse_substvar s)) as M1. fold s1 in M1.
+      assert (K1 : nerr (parse_substvar s) = nerr s) by (fold s1; lia).
+      destruct (inv_parse_substvar s) as (body & E1); [rewrite Et; reflexivity|rewrite Et; exact Hv|exact K1|]. fold s1 in E1.
+      destruct (skip_split s1) as (trail & Htr & Es1 & _). fold s2 in Es1.
+      apply (Tail (ASubst body trail)); [cbn [aitem_ok]; rewrite Htr; reflexivity|unfold s2; rewrite E_skip_ws; lia|].
+      cbn [aitem_toks]. rewrite E1, Es1. rewrite <- app_assoc. reflexivity.
+Qed.
+
+Theorem complete_tokens a ts t : parse_tokens a ts = Ok (t, 0) -> vts ts ->
+  exists g, ashape a g = true /\ atoks g = ts /\ atree_of g = t.
+Proof.
+  intros Hp Hv.
+  assert (Hg : exists g, ashape a g = true /\ atoks g = ts).
+  { unfold parse_tokens in Hp.
+    set (body := fun st : pst => root_loop a (loop_fuel (skip_ws st)) (skip_ws st)) in *.
+    set (s0 := mk_pst ts [] 0 0%N) in *.
+    assert (N : nerr (in_node ROOT body s0) = 0).
+    { destruct (flag (in_node ROOT body s0) =? 0)%N.
+      - destruct (RelParse.out (in_node ROOT body s0)) as [|t0 [|t1 l]]; try discriminate. injection Hp as _ H. exact H.
+      - destruct (flag (in_node ROOT body s0) =? 1)%N; discriminate. }
+    rewrite E_in_node in N. unfold body in N.
+    set (s1 := skip_ws (reset s0)) in *.
+    destruct (skip_split (reset s0)) as (lead & Hl & Es & Hn). fold s1 in Es, Hn. change (toks (reset s0)) with ts in Es.
+    destruct (inv_root_loop a (loop_fuel s1) s1) as (i & more & Hi & Hm & E1);
+      [unfold loop_fuel; lia|rewrite Es in Hv; apply (vts_app _ _ Hv)|exact Hn|rewrite N; unfold s1; rewrite E_skip_ws; reflexivity|].
+    exists (mk_afield lead i more). split.
+    - unfold ashape. cbn [af_lead af_first af_rest]. rewrite Hl, Hi, Hm. reflexivity.
+    - unfold atoks. cbn [af_lead af_first af_rest]. rewrite Es, E1. reflexivity. }
+  destruct Hg as (g & Hs & Eg). exists g. split; [exact Hs|]. split; [exact Eg|].
+  pose proof (parse_atoks a g Hs) as P. rewrite Eg, Hp in P. injection P as <-. reflexivity.
+Qed.
+
+Lemma lexable_vts ts : lexable ts = true -> vts ts.
+Proof.
+  induction ts as [|t r IH]; intros H; [constructor|]. cbn [lexable] in H.
+  apply andb_true_iff in H. destruct H as [H Hr]. apply andb_true_iff in H. destruct H as [Hv _].
+  constructor; [exact Hv|apply IH, Hr].
+Qed.
+
+(* every text the reader accepts without error is the rendering of a liberal layout *)
+Theorem complete_text s a t : RelParse.parse s a = Ok (t, 0) ->
+  exists g, awf a g = true /\ arender g = s /\ atree_of g = t.
+Proof.
+  unfold RelParse.parse. intros H. destruct (rlex s) as [ts| | |] eqn:El; try discriminate.
+  destruct (rlex_lexable s ts El) as [Hlx Htx].
+  destruct (complete_tokens a ts t H (lexable_vts ts Hlx)) as (g & Hs & Eg & Et).
+  exists g. split; [unfold awf; rewrite Hs, Eg, Hlx; reflexivity|]. split; [unfold arender; rewrite Eg; exact Htx|exact Et].
+Qed.
